@@ -123,3 +123,30 @@ Print Assumptions C08_num_current.
 Print Assumptions C08_curves_current.
 Print Assumptions C08_params_current.
 Print Assumptions C08_metadata_current.
+
+(* ---- which parser method a title selects, and with which orders, is the Python's -------------------
+   SectionParser.__init__ re-translated on every run as (title, version) -> (func, section_name2,
+   default_order, orders) (py_parser_init) chooses the method kind_of_title names and stores the orders
+   parser_entry names, for every title that starts with "~" and every version but 3.0; and the parser so
+   built, applied to a parsed line (parser_call = __call__), is build_item. *)
+Require Import FuncsPinParserInit.
+Theorem C08_parser_init_current : forall t v,
+  startswith [ch_tilde] t = true -> v <> V30 ->
+  py_parser_init t v =
+  let k := kind_of_title t in
+  Some (func_tag k, name2 k t,
+        Some (order_str (fst (parser_entry v k))), Some (parser_orders (snd (parser_entry v k)))).
+Proof. exact parser_init_pin. Qed.
+Theorem C08_parser_call_current : forall fstr fzero t v h func n2 dflt orders,
+  startswith [ch_tilde] t = true -> v <> V30 ->
+  py_parser_init t v = Some (func, n2, Some dflt, Some orders) ->
+  parser_call fstr fzero func dflt orders (keys_of h) = Some (item_of (build_item v (kind_of_title t) h)).
+Proof. exact parser_call_pin. Qed.
+(* the hypotheses are met: "~Well" read as 1.2 selects metadata with the swapped default order *)
+Example C08_parser_init_nonvacuous :
+  let t := s2l "~Well Information" in
+  startswith [ch_tilde] t = true /\ V12 <> V30 /\
+  exists n2 orders, py_parser_init t V12 = Some (tag_metadata, n2, Some (order_str DescrValue), Some orders) /\ orders <> [].
+Proof. repeat split; try discriminate. eexists. eexists. split; [vm_compute; reflexivity|discriminate]. Qed.
+Print Assumptions C08_parser_init_current.
+Print Assumptions C08_parser_call_current.
